@@ -674,6 +674,15 @@ func (g *Gen) Mutate(p *ps.Program, kind string) bool {
 		if kind == "sig-predvariadic" {
 			t.PIns = nil
 		}
+		// the predicate is emitted as a literal in the program file, which imports neither ty nor ext
+		var local []int
+		for _, x := range t.PIns {
+			if ps.Types[x].Home == "local" {
+				local = append(local, x)
+			}
+		}
+		t.PIns = local
+		t.PForm = "lit"
 		p.Quirk = kind
 		p.QuirkK = t.K
 	case "sig-fbarity":
